@@ -186,6 +186,82 @@ def emit(defs) -> str:
     return "\n".join(out)
 
 
+def text_converter(mod) -> str:
+    """TextConverter.receive_layout: the shape of `render` (which classes are tested, in which order, and
+    what each branch does) is checked; the two literals (after a text box, after a page) are emitted."""
+    rl = P.find_function(mod, "TextConverter.receive_layout")
+    inner = [n for n in rl.body if isinstance(n, ast.FunctionDef)]
+    if [f.name for f in inner] != ["render"]:
+        raise P.Untranslatable("TextConverter.receive_layout no longer consists of render")
+    render = inner[0]
+
+    def isinst(t):
+        if isinstance(t, ast.Call) and isinstance(t.func, ast.Name) and t.func.id == "isinstance" and \
+                isinstance(t.args[0], ast.Name) and t.args[0].id == "item" and isinstance(t.args[1], ast.Name):
+            return t.args[1].id
+        raise P.Untranslatable("TextConverter.render test: " + ast.unparse(t))
+
+    def write_text_arg(st):
+        if isinstance(st, ast.Expr) and isinstance(st.value, ast.Call) and isinstance(st.value.func, ast.Attribute) \
+                and st.value.func.attr == "write_text" and len(st.value.args) == 1:
+            return st.value.args[0]
+        raise P.Untranslatable("TextConverter.render statement: " + ast.unparse(st))
+
+    body = render.body
+    if len(body) != 2 or not all(isinstance(b, ast.If) for b in body):
+        raise P.Untranslatable("TextConverter.render is not two if-chains")
+    first, second = body
+    # if LTContainer: for child in item: render(child)   elif LTText: write_text(item.get_text())
+    if isinst(first.test) != "LTContainer" or ast.unparse(first.body[0]) != "for child in item:\n    render(child)" \
+            or len(first.body) != 1 or len(first.orelse) != 1 or not isinstance(first.orelse[0], ast.If) \
+            or isinst(first.orelse[0].test) != "LTText" or first.orelse[0].orelse \
+            or ast.unparse(write_text_arg(first.orelse[0].body[0])) != "item.get_text()":
+        raise P.Untranslatable("TextConverter.render: container / text branch changed: " + ast.unparse(first)[:120])
+    # if LTTextBox: write_text(<literal>)   elif LTImage: ...
+    if isinst(second.test) != "LTTextBox" or len(second.body) != 1:
+        raise P.Untranslatable("TextConverter.render: the line break is no longer written after every LTTextBox")
+    box_end = write_text_arg(second.body[0])
+    if not (isinstance(box_end, ast.Constant) and isinstance(box_end.value, str)):
+        raise P.Untranslatable("TextConverter.render: text-box terminator is not a literal")
+    # after render(ltpage): write_text(<literal>)
+    tail = [st for st in rl.body if not isinstance(st, ast.FunctionDef)]
+    if len(tail) < 2 or ast.unparse(tail[-2]) != "render(ltpage)":
+        raise P.Untranslatable("TextConverter.receive_layout: render(ltpage) is not followed by one write")
+    page_end = write_text_arg(tail[-1])
+    if not (isinstance(page_end, ast.Constant) and isinstance(page_end.value, str)):
+        raise P.Untranslatable("TextConverter.receive_layout: page terminator is not a literal")
+    return ("/-- `write_text` argument after the children of an LTTextBox -/\n"
+            f"def t_text_box_end : Str :=\n  {chars(box_end.value)}\n\n"
+            "/-- `write_text` argument after `render(ltpage)` -/\n"
+            f"def t_text_page_end : Str :=\n  {chars(page_end.value)}\n")
+
+
+def bbox2str_def() -> str:
+    """utils.bbox2str: tuple unpacking + one f-string of `:.3f` fields -> Lean over signed rationals."""
+    mod = P.parse_file("pdfminer/utils.py")
+    fn = P.find_function(mod, "bbox2str")
+    if len(fn.args.args) != 1 or len(fn.body) != 2:
+        raise P.Untranslatable("bbox2str: shape")
+    un, ret = fn.body
+    if not (isinstance(un, ast.Assign) and isinstance(un.targets[0], ast.Tuple) and isinstance(un.value, ast.Name)
+            and un.value.id == fn.args.args[0].arg and all(isinstance(e, ast.Name) for e in un.targets[0].elts)):
+        raise P.Untranslatable("bbox2str: unpacking")
+    names = [e.id for e in un.targets[0].elts]
+    if not (isinstance(ret, ast.Return) and isinstance(ret.value, ast.JoinedStr)):
+        raise P.Untranslatable("bbox2str: return is not an f-string")
+    terms = []
+    for v in ret.value.values:
+        if isinstance(v, ast.Constant) and isinstance(v.value, str):
+            terms.append(chars(v.value))
+        elif isinstance(v, ast.FormattedValue) and isinstance(v.value, ast.Name) and v.value.id in names \
+                and isinstance(v.format_spec, ast.JoinedStr) and len(v.format_spec.values) == 1 \
+                and isinstance(v.format_spec.values[0], ast.Constant) and v.format_spec.values[0].value == ".3f":
+            terms.append(f"fmtF3 {v.value.id}")
+        else:
+            raise P.Untranslatable("bbox2str: f-string piece " + ast.dump(v)[:80])
+    return (f"def bbox2str ({' '.join(names)} : SRat) : List Char :=\n  " + " ++ ".join(terms) + "\n")
+
+
 def generate(lean_dir: str):
     mod = P.parse_file("pdfminer/converter.py")
     ranges = control_ranges(mod)
@@ -221,8 +297,13 @@ def generate(lean_dir: str):
            "  One definition per string handed to self.write, in source order; `enc x` / `attr strip x`\n"
            "  mark the arguments the source escapes, every other argument is inserted as it is.\n-/\n"
            "import PdfVerif.Model.ConvertEsc\nset_option linter.unusedVariables false\n\n"
-           "namespace PdfVerif.Gen.ConvertXml\nopen PdfVerif.Convert\n\n" + emit(col.defs) +
+           "namespace PdfVerif.Gen.ConvertXml\nopen PdfVerif.Convert\n\n" + emit(col.defs) + "\n" + text_converter(mod) +
            "\nend PdfVerif.Gen.ConvertXml\n")
     p2 = os.path.join(lean_dir, "PdfVerif", "Gen", "ConvertXml.lean")
     P.write_if_changed(p2, xml)
-    return [p1, p2]
+    fmt = ("/-\n  GENERATED by /verif/tools/translate/gen_c11.py on every run from pdfminer/utils.py (bbox2str).\n"
+           "  Do not edit.\n-/\nimport PdfVerif.Model.Format\n\nnamespace PdfVerif.Gen.ConvertFmt\nopen PdfVerif.Convert\n\n"
+           + bbox2str_def() + "\nend PdfVerif.Gen.ConvertFmt\n")
+    p3 = os.path.join(lean_dir, "PdfVerif", "Gen", "ConvertFmt.lean")
+    P.write_if_changed(p3, fmt)
+    return [p1, p2, p3]
